@@ -980,6 +980,17 @@ class Data(object):
         else: #pass on to superclass
             super(Data,self).__setattr__(key,value)
 
+    def __delattr__(self, key):
+        """Convert delattr of a field to delitem on self.__dict__
+
+           object.__delattr__ deletes from the instance dict directly and never
+           goes through the odict so the odict key order list would keep the key
+        """
+        if key in self.__dict__:
+            self.__dict__.pop(key)
+        else:
+            super(Data,self).__delattr__(key)
+
     def __repr__(self):
         """
         Representation
